@@ -124,6 +124,8 @@ class EchoErrorHandler(ErrorHandler):
         request.environ['sim.ds'].append(_dispatch_state)
         resp = ErrorHandler.render_error(self, request, _error)
         resp.headers['X-Sim-Err-Id'] = rid(request)
+        # what THIS request's dispatch recorded (methods of mismatching routes, declined errors)
+        resp.headers['X-Sim-DS'] = '%s|%d' % (','.join(sorted(_dispatch_state.allowed_methods)), len(_dispatch_state.exceptions))
         return resp
 
 
